@@ -226,6 +226,15 @@ func (l *Lexer) Split() []*Token {
 			tokLen = 0
 			var token *Token = nil
 
+			switch char {
+			case '*', '+', '-', '/':
+				// These never combine with a following '=' into one operator
+				token = &Token{
+					Tp:   OPERATOR,
+					Data: string(char),
+					Pos:  i,
+				}
+			}
 			if next != '=' {
 				switch char {
 				case '!', '*', '+', '-', '/':
